@@ -12,6 +12,9 @@ package proposal
 //@ import configapi "github.com/onosproject/onos-api/go/onos/config/v2"
 
 //@ func (*Reconciler).reconcileAbort
+//@   props C01, C02, C07
+//@   probe prevIndex: proposal.Status.PrevIndex
+//@   probe txIndex: proposal.TransactionIndex
 //@   requires r != nil && proposal != nil && proposal.tracked && proposalSnapshotted(proposal) && proposalWellFormed(proposal)
 //@   requires proposal.Status.Phases.Abort != nil
 //@   requires proposal.Status.PrevIndex < proposal.TransactionIndex
